@@ -49,7 +49,7 @@ PROPS["C04"] = {
 _P_C05 = {"parts": ["written", "savecall", "saveerr", "nowrite", "flag=", "pos"], "tuples": "seq"}
 PROPS["C05"] = {
     "streams": ["sess-save", "sess-crash", "c02w"], "audit": "C05.lean", "shrink": True,
-    "clauses": ["C05", "C02.save-then-load", "C05.successful-save-skipped-writes"],
+    "clauses": ["C05", "C02.save-then-load"],
     "compare_parts": {"sess-save": _P_C05, "sess-crash": _P_C05},
     "rule": _SESS_RULE, "assumptions": _SESS_ASSUME + ["a save 'completes successfully' also on the skip path (flag down); 'rejects or times out' = the store returns an error"],
     "design_ref": "DESIGN.md §7 C05, §6 F1 F2",
